@@ -221,6 +221,9 @@ pub fn run_case(case: &Case) -> Outcome {
         if m == "drop-closer" {
             out.probe("reach:unterminated-construct", 1);
         }
+        if m == "utf8-splice" {
+            out.probe("fault:multi-byte-character-spliced-in", 1);
+        }
         if m == "json-structure" {
             out.probe("fault:json-member-of-wrong-type-or-missing", 1);
         }
@@ -295,6 +298,29 @@ pub fn enumerate_single_faults(prop: &str, base: &[u8], kind: &str, grid: bool, 
             c.extra.insert("mutation".into(), "duplicate".into());
             cases.push(c);
         }
+        // a multi-byte character over every window of 2, 3 and 4 bytes (length kept: byte-indexed
+        // slicing of text that is still valid UTF-8), and inserted at every offset
+        if n <= 512 {
+            for off in 0..=n {
+                for ch in ["é", "€", "😀"] {
+                    let k = ch.len();
+                    if off + k <= n {
+                        let mut d = base.to_vec();
+                        d.splice(off..off + k, ch.bytes());
+                        let mut c = mk(sink, &d, format!("utf8-over@{off}+{k}"));
+                        c.extra.insert("mutation".into(), "utf8-splice".into());
+                        cases.push(c);
+                    }
+                    if k == 2 || off % 3 == 0 {
+                        let mut d = base.to_vec();
+                        d.splice(off..off, ch.bytes());
+                        let mut c = mk(sink, &d, format!("utf8-insert@{off}+{k}"));
+                        c.extra.insert("mutation".into(), "utf8-splice".into());
+                        cases.push(c);
+                    }
+                }
+            }
+        }
         // every single-bit flip for short documents
         if n <= 256 {
             for off in 0..n {
@@ -334,6 +360,42 @@ pub fn enumerate_single_faults(prop: &str, base: &[u8], kind: &str, grid: bool, 
         }
     }
     cases
+}
+
+/// Every pair of single-bit flips, and every single-bit flip combined with every later truncation
+/// point, of a short base document.
+pub fn enumerate_double_faults(prop: &'static str, base: Vec<u8>, kind: &'static str, grid: bool, unit_name: String) -> impl Iterator<Item = Case> {
+    let n = base.len();
+    let sinks: Vec<&'static str> = if kind == "json" { vec!["json-slice"] } else if grid { vec!["zinc-value", "zinc-rows"] } else { vec!["zinc-value"] };
+    let nbits = n * 8;
+    (0..nbits).flat_map(move |a| {
+        let base = base.clone();
+        let sinks = sinks.clone();
+        let unit_name = unit_name.clone();
+        let first = mutate::flip_bit(&base, a / 8, (a % 8) as u8);
+        let mut out: Vec<Case> = Vec::new();
+        for b in a + 1..nbits {
+            let doc = mutate::flip_bit(&first, b / 8, (b % 8) as u8);
+            for sink in &sinks {
+                let mut c = Case::new(prop, sink, &doc);
+                c.extra.insert("mutation".into(), "bitflip".into());
+                c.extra.insert("mutations".into(), "bitflip+bitflip".into());
+                c.origin = format!("{unit_name} flip@{}.{}+flip@{}.{}", a / 8, a % 8, b / 8, b % 8);
+                out.push(c);
+            }
+        }
+        for cut in a / 8 + 1..=n {
+            for sink in &sinks {
+                let mut c = Case::new(prop, sink, &first);
+                c.extra.insert("mutation".into(), "bitflip".into());
+                c.read.truncate = Some(cut);
+                c.read.chunk = if cut % 2 == 0 { Chunk::One } else { Chunk::Full };
+                c.origin = format!("{unit_name} flip@{}.{}+truncate@{cut}", a / 8, a % 8);
+                out.push(c);
+            }
+        }
+        out.into_iter()
+    })
 }
 
 /// Fault plan biased to in-flight state: inside tokens, at token boundaries +-1, in look-ahead windows.
@@ -393,7 +455,15 @@ impl C03 {
         // (generated zinc docs, generated json docs, search units, cases per search unit)
         match self.ctx.tier {
             Tier::Quick => (300, 120, 256, 6000),
-            Tier::Thorough => (1500, 600, 1024, 12000),
+            Tier::Thorough => (3000, 1200, 4096, 20000),
+        }
+    }
+
+    /// base documents up to this length get every *pair* of faults enumerated as well
+    fn max_len_two_faults(&self) -> usize {
+        match self.ctx.tier {
+            Tier::Quick => 14,
+            Tier::Thorough => 32,
         }
     }
 
@@ -501,6 +571,15 @@ impl Engine for C03 {
             id += 1;
         }
         units.push(UnitSpec { id, name: "ladder".into(), isolated: true, exhaustive: false });
+        id += 1;
+        // two-fault enumeration for the short base documents
+        let max2 = self.max_len_two_faults();
+        for (name, _, _, text) in self.base_docs() {
+            if text.len() <= max2 && !text.is_empty() {
+                units.push(UnitSpec { id, name: format!("enum2:{name}"), isolated: false, exhaustive: true });
+                id += 1;
+            }
+        }
         units
     }
 
@@ -512,6 +591,11 @@ impl Engine for C03 {
         }
         if unit.name == "ladder" {
             return Box::new(self.ladder().into_iter());
+        }
+        if let Some(name) = unit.name.strip_prefix("enum2:") {
+            let docs = self.base_docs();
+            let (_, kind, grid, text) = docs.into_iter().find(|d| d.0 == name).expect("unit exists");
+            return Box::new(enumerate_double_faults("C03", text, kind, grid, unit.name.clone()));
         }
         // seeded search over multi-fault plans x corrupted documents x raw bytes
         let (_, _, _, per) = self.sizes();
